@@ -71,14 +71,14 @@ def parseStore? (s : String) : Option Store :=
 def showW : WOut → String
   | .ok st n => s!"ok n={n} files={showStore st}"
   | .err st n => s!"err n={n} files={showStore st}"
-  | .panic => "panic"
+  | .panic st => s!"panic files={showStore st}"
 
 def parseW? (obs : String) : Option WOut :=
-  if obs = "panic" then some .panic else
   let toks := words obs
   match toks.head?, parseStore? (kvStr toks "files") with
   | some "ok", some st => some (.ok st (kvNat toks "n"))
   | some "err", some st => some (.err st (kvNat toks "n"))
+  | some "panic", some st => some (.panic st)
   | _, _ => none
 
 def showR (sep : String) : ROut → String
@@ -179,9 +179,11 @@ def step (st : St) (op implObs : String) : St × String × List String × List S
       let store' := match impl, model with
         | some (.ok s _), _ => s
         | some (.err s _), _ => s
+        | some (.panic s), _ => s
         | _, .ok s _ => s
-        | _, _ => st.store
-      let tags := (match model with | .panic => ["branch:write-panic"] | .err _ _ => ["branch:write-err"] | .ok _ _ => ["branch:write-ok"]) ++
+        | _, .err s _ => s
+        | _, .panic s => s
+      let tags := (match model with | .panic _ => ["branch:write-panic"] | .err _ _ => ["branch:write-err"] | .ok _ _ => ["branch:write-ok"]) ++
         (if p.secs.any (·.pad) then ["write-skips-padding"] else [])
       ({ st with store := store' }, showW model, viol, tags)
   | some "readat" =>
